@@ -95,7 +95,7 @@ def statusChar : Status → Char
 def txOutside : Tx → Bool
   | .operator _ _ ts => ts.any (fun p => p.2 == Amount.outside)
   | .contract t => strToBigInt t.value == Amount.outside || t.nz + t.z ≥ 2 ^ 20
-  | .lock _ n _ => n ≥ 2 ^ 53
+  | .lock _ _ _ => false
 
 instance : BEq Amount := ⟨fun a b => decide (a = b)⟩
 
@@ -124,7 +124,7 @@ def parseTx (ds : DS) : List String → Option Tx
     let src ← addr? src
     let n ← nat? n
     let ok ← bool? ok
-    pure (.lock src n ok)
+    if n ≥ 2 ^ 53 then none else pure (.lock src (stakeOf n) ok)
   | _ => none
 
 def showState (ds : DS) : String :=
